@@ -84,9 +84,43 @@ def perprop():
             out.append("*Assumptions.* " + " · ".join(ob["assumptions"]) + "\n")
         out.append("*Trusted base.* " + " · ".join(ob.get("trusted_base", [])) + "\n")
     return "\n".join(out) + "\n"
+def appendix_a():
+    od = os.path.join(ROOT, "lean", "obligations")
+    nseed = {}
+    sd = os.path.join(ROOT, "seeded")
+    for x in os.listdir(sd):
+        mp = os.path.join(sd, x, "meta.json")
+        if os.path.exists(mp):
+            m = json.load(open(mp))
+            pid = x.split("-")[0]
+            a, b = nseed.get(pid, (0, 0))
+            res = m.get("check_result", "")
+            ok = "VIOLATION" in res
+            nseed[pid] = (a + 1, b + (1 if ok else 0))
+    nk = {}
+    paths = [os.path.join(ROOT, "known_findings.json")]
+    d = os.path.join(ROOT, "known_findings.d")
+    paths += [os.path.join(d, f) for f in sorted(os.listdir(d)) if f.endswith(".json")]
+    for pth in paths:
+        for f in json.load(open(pth)).get("findings", []):
+            nk[f.get("property")] = nk.get(f.get("property"), 0) + 1
+    nf = {}
+    for e in json.load(open(os.path.join(ROOT, "lib", "fixed.json"))):
+        nf[e["property"]] = nf.get(e["property"], 0) + 1
+    rows = ["| prop | theorems (first few of n) | claim | defects repaired / recorded | seeded changes caught |", "|---|---|---|---|---|"]
+    for fn in sorted(os.listdir(od)):
+        if not fn.endswith(".json"):
+            continue
+        pid = fn[:-5]
+        ob = json.load(open(os.path.join(od, fn)))
+        ths = [t.split(".")[-1] for t in ob.get("theorems", [])]
+        claim = "partial: " + esc(ob.get("partial", ""))[:170] if ob.get("partial") else "full on the model"
+        a, b = nseed.get(pid, (0, 0))
+        rows.append("| %s | %s … (%d) | %s | %d / %d | %d of %d |" % (pid, ", ".join("`%s`" % t for t in ths[:4]), len(ths), claim, nf.get(pid, 0), nk.get(pid, 0), b, a))
+    return "\n".join(rows) + "\n"
 p = os.path.join(ROOT, "DESIGN.md")
 s = open(p).read()
-for name, fn in (("FIXED", fixed), ("KNOWN", known), ("SEEDED", seeded), ("PERPROP", perprop)):
+for name, fn in (("FIXED", fixed), ("KNOWN", known), ("SEEDED", seeded), ("PERPROP", perprop), ("APPA", appendix_a)):
     b, e = "<!-- %s:BEGIN -->" % name, "<!-- %s:END -->" % name
     if b in s and e in s:
         s = s[:s.index(b) + len(b)] + "\n" + fn() + s[s.index(e):]
